@@ -208,6 +208,10 @@ func decodeBatchRecords(batch []byte, topic string, partition int32) ([]Record, 
 	}
 
 	recordsData := batch[recordBatchHeaderLen:]
+	// The count comes from the client's batch header; every record takes at least one byte.
+	if int64(recordCount) > int64(len(recordsData)) {
+		return nil, fmt.Errorf("record count %d exceeds batch payload of %d bytes", recordCount, len(recordsData))
+	}
 	reader := bytes.NewReader(recordsData)
 	records := make([]Record, 0, recordCount)
 	for i := int32(0); i < recordCount; i++ {
@@ -227,6 +231,9 @@ func decodeRecord(reader *bytes.Reader, baseOffset int64, baseTimestamp int64, t
 	}
 	if length < 0 {
 		return Record{}, fmt.Errorf("invalid record length")
+	}
+	if int(length) > reader.Len() {
+		return Record{}, fmt.Errorf("record length %d exceeds remaining batch bytes %d", length, reader.Len())
 	}
 
 	recordData := make([]byte, length)
@@ -272,6 +279,10 @@ func decodeRecord(reader *bytes.Reader, baseOffset int64, baseTimestamp int64, t
 	if err != nil {
 		return Record{}, err
 	}
+	// Each header takes at least two bytes (key length + value length).
+	if headerCount < 0 || int(headerCount) > buf.Len() {
+		return Record{}, fmt.Errorf("invalid header count %d with %d record bytes left", headerCount, buf.Len())
+	}
 	headers := make([]Header, 0, headerCount)
 	for i := int32(0); i < headerCount; i++ {
 		headerKeyLen, err := readVarint(buf)
@@ -312,6 +323,9 @@ func parseIndex(data []byte) ([]indexEntry, error) {
 		return nil, fmt.Errorf("invalid index magic")
 	}
 	entryCount := int(binary.BigEndian.Uint32(data[6:10]))
+	if entryCount > (len(data)-16)/12 {
+		return nil, fmt.Errorf("index entry count %d exceeds %d bytes of entries", entryCount, len(data)-16)
+	}
 	entries := make([]indexEntry, 0, entryCount)
 	offset := 16
 	for i := 0; i < entryCount; i++ {
@@ -380,6 +394,9 @@ func zigZagDecode(value int32) int32 {
 func readNullableBytes(reader *bytes.Reader, length int32) ([]byte, error) {
 	if length < 0 {
 		return nil, nil
+	}
+	if int(length) > reader.Len() {
+		return nil, io.ErrUnexpectedEOF
 	}
 	data := make([]byte, length)
 	if _, err := io.ReadFull(reader, data); err != nil {
